@@ -503,7 +503,7 @@ def flipped_semantics(case):
 # is built the other way - fresh parse, fresh Builder, fresh Configuration - so that first-build behaviour
 # stays covered as well.
 import threading
-_SESSION = {'fcs': [], 'builder': None, 'conf': None}
+_SESSION = {'fcs': [], 'builder': None, 'conf': None, 'consts': {}}
 _SESSION_LOCK = threading.RLock()      # compiled-program checks build from worker threads
 SESSION_MODE = True
 
@@ -518,6 +518,20 @@ def _session_fc(ast_json, parse):
     _SESSION['fcs'].append((key, fc))
     del _SESSION['fcs'][:-8]
     return fc
+
+
+def session_const(holder, kind, value, make):
+    """the user's module-level constants (PREFIX = ns_ids_t('My.Lib'), ALL_STS = PortSelect(...)): within a session
+    the same value is the same object, handed to every build that uses it"""
+    if holder is None:
+        return make()
+    consts = holder.setdefault('consts', {})
+    key = (kind, json.dumps(value, sort_keys=True))
+    if key not in consts:
+        if len(consts) > 400:
+            consts.clear()
+        consts[key] = make()
+    return consts[key]
 
 
 def live_configuration(holder, conf):
@@ -566,7 +580,7 @@ def _build_real(case, cfg, shared, session):
     from dznpy.adv_shell.common import Configuration, FacilitiesOrigin
     from dznpy.adv_shell.port_selection import MultiClientPortCfg
     from dznpy.scoping import NamespaceIds
-    from harness.props.c03 import mk_portscfg
+    from harness.props.c03 import mk_portscfg, mk_select
     try:
         def parse():
             return DznJsonAst(json_contents=json.dumps(case['ast'])).process()
@@ -578,16 +592,21 @@ def _build_real(case, cfg, shared, session):
             fc = parse()
             if shared is not None:
                 shared['ast'], shared['fc'] = case['ast'], fc
+        holder = shared if shared is not None else (_SESSION if session else None)
+
+        def ns_const(v):
+            return session_const(holder, 'ns', list(v), lambda: NamespaceIds(list(v)))
         mc = None
         if cfg.get('multiclient'):
             m = cfg['multiclient']
-            mc = MultiClientPortCfg(m['port'], m['claim'], NamespaceIds(list(m['grant'])), m['release'])
-        pc = mk_portscfg(cfg['ports'], mc)
+            mc = MultiClientPortCfg(m['port'], m['claim'], ns_const(m['grant']), m['release'])
+        pc = mk_portscfg(cfg['ports'], mc,
+                         select=lambda d: session_const(holder, 'sel', d, lambda: mk_select(d)))
         conf = Configuration(dezyne_filename=cfg['filename'], ast_fc=fc, output_basename_suffix=cfg['suffix'],
-                             fqn_encapsulee_name=NamespaceIds(list(cfg['encapsulee'])), ports_cfg=pc,
+                             fqn_encapsulee_name=ns_const(cfg['encapsulee']), ports_cfg=pc,
                              facilities_origin=FacilitiesOrigin.IMPORT if cfg['origin'] == 'import' else FacilitiesOrigin.CREATE,
                              copyright=cfg.get('copyright'),
-                             support_files_ns_prefix=NamespaceIds(list(cfg['prefix'])) if cfg.get('prefix') is not None else None,
+                             support_files_ns_prefix=ns_const(cfg['prefix']) if cfg.get('prefix') is not None else None,
                              creator_info=cfg.get('creator'))
         if shared is not None:
             builder = shared.setdefault('builder', Builder())
